@@ -127,6 +127,7 @@ static void h_releasing (int mi, int writer) {
 	if (writer) { client_wr (&W.payload[48 + mi]); W.payload[48 + mi]++; h->writer = -1; } else { h->readers--; h->rd[t]--; }
 }
 
+static unsigned held_checks;
 /* the caller must hold W.mu[mi] in the given mode according to the in-library model and the word */
 static void check_held (const char *prop, const char *what, int mi, int writer) {
 	int isw = -1;
@@ -138,6 +139,14 @@ static void check_held (const char *prop, const char *what, int mi, int writer) 
 	word = *(volatile uint32_t *) &W.mu[mi]->word;
 	if (writer ? ((word & MU_WLOCK) == 0 || (word & MU_RLOCK_FIELD) != 0) : ((word & MU_WLOCK) != 0 || (word & MU_RLOCK_FIELD) == 0)) {
 		VIOL (prop, "held-mode", "%s returned in %s mode but the mutex word is 0x%x", what, writer ? "write" : "read", word);
+	}
+	/* the library's own view through its public assertions (they panic when the mutex is not held in that mode);
+	   every fourth harness step, so that the extra atomic loads do not dominate the schedule space */
+	if ((held_checks++ & 3) == 0) {
+		int isr;
+		if (writer) nsync_mu_assert_held (W.mu[mi]); else nsync_mu_rassert_held (W.mu[mi]);
+		isr = nsync_mu_is_reader (W.mu[mi]);
+		if (isr != !writer) VIOL (prop, "is-reader", "%s returned in %s mode but nsync_mu_is_reader says %d", what, writer ? "write" : "read", isr);
 	}
 }
 
@@ -734,16 +743,31 @@ static void op_ctr_wait (op_t *o) {
 	uint32_t r;
 	int64_t inv = ++hstep;
 	int zero_before = (CM[c].zero_step >= 0);
+	if (o->a[2] && S.nnote > 0 && W.note[0] != NULL) {
+		/* "through nsync_wait_n": the counter together with a note that is never notified, in either order */
+		struct nsync_waitable_s wo[2], *pwo[2];
+		int ci = (o->a[2] == 2) ? 1 : 0, idx;
+		wo[ci].v = W.ctr[c]; wo[ci].funcs = &nsync_counter_waitable_funcs;
+		wo[1 - ci].v = W.note[0]; wo[1 - ci].funcs = &nsync_note_waitable_funcs;
+		pwo[0] = &wo[0]; pwo[1] = &wo[1];
+		nsim_op_begin ("nsync_wait_n");
+		idx = nsync_wait_n (NULL, NULL, NULL, dl_time (dl_ns), 2, pwo);
+		if (idx == 1 - ci) VIOL ("C10", "wait-n-wrong-index", "nsync_wait_n over {counter, never-notified note} returned the note's index %d", idx);
+		r = (idx == ci) ? 0 : 1;
+	} else {
 	nsim_op_begin ("nsync_counter_wait");
 	r = nsync_counter_wait (W.ctr[c], dl_time (dl_ns));
+	}
 	if (nsim_op_sleeps () > 0) { nsim_probe (PR_BLOCKED); nsim_probe (PR_CTR_ZERO_WAITERS); }
-	if (zero_before && nsim_op_sleeps () > 0) {
+	/* (with the note scanned first, nsync_wait_n may briefly queue for the note's internal mutex against other callers: not the counter's doing) */
+	if (zero_before && nsim_op_sleeps () > 0 && !(o->a[2] == 2 && S.nnote > 0)) {
 		VIOL ("C10", "wait-after-zero-blocked", "nsync_counter_wait started after an add had returned 0 but slept %d times", nsim_op_sleeps ());
 	}
 	nsim_op_end ();
 	/* "returned 0 only if the counter reached zero" is decided over the history at the end (an add that
 	   produced zero may not have returned yet) */
-	if (nCH[c] < 64) { chist_t *h = &CH[c][nCH[c]++]; h->kind = 2; h->ctr = c; h->arg = 0; h->res = r; h->inv = inv; h->ret = ++hstep; }
+	/* kind 3: through nsync_wait_n only "zero" / "not zero" is learnt, not the value */
+	if (nCH[c] < 64) { chist_t *h = &CH[c][nCH[c]++]; h->kind = (o->a[2] && S.nnote > 0) ? 3 : 2; h->ctr = c; h->arg = 0; h->res = r; h->inv = inv; h->ret = ++hstep; }
 	if (r == 0) {
 		ctr_payload_read ();
 	} else {
@@ -892,7 +916,7 @@ static void world_init (void) {
 	memset (nCH, 0, sizeof nCH);
 	memset (cv_signals_invoked, 0, sizeof cv_signals_invoked);
 	memset (cv_signals_returned, 0, sizeof cv_signals_returned);
-	hstep = 0;
+	hstep = 0; held_checks = 0;
 	harness_state_reset ();
 	last_alloc_failed = 0;
 	for (i = 0; i < MAXMU; i++) HS[i].writer = -1;
